@@ -92,6 +92,12 @@ def _key_elt(cls, e):
     if (isinstance(e, ast.Call) and not e.args and not e.keywords and isinstance(e.func, ast.Attribute)
             and e.func.attr == 'hex' and _self_attr(e.func.value)):
         return (_self_attr(e.func.value), 'ERepr')
+    # any other expression of exactly one attribute ('%g' % self.value, str(self.x), round(self.x, 3), ...):
+    # a rendering about which nothing is known -- EOther never satisfies `covers`
+    used = sorted({_self_attr(n) for n in ast.walk(e) if _self_attr(n)})
+    names = {n.id for n in ast.walk(e) if isinstance(n, ast.Name)} - {'self', 'str', 'repr', 'round', 'int', 'float', 'format', 'abs', 'tuple'}
+    if len(used) == 1 and not names:
+        return (used[0], 'EOther')
     raise TranslateError('%s.hash_key: element not understood: %s' % (cls.name, ast.unparse(e)))
 
 
@@ -306,6 +312,39 @@ def translate(repo):
     eh = [s for s in ast.walk(h) if isinstance(s, ast.Assign) and any(isinstance(t, ast.Name) and t.id == 'expr_hashes' for t in s.targets)]
     if len(eh) != 1 or ast.unparse(eh[0].value) != 'self.compute_recursive(lambda e, child_hashes: e.hash(child_hashes))':
         raise TranslateError('VForm.hash: expr_hashes is no longer compute_recursive(e.hash)')
+    # hash() memoises: `if self.__hash is None: ... self.__hash = hash(...)` then `return self.__hash`
+    hb = [st for st in h.body if not (isinstance(st, ast.Expr) and isinstance(st.value, ast.Constant))]
+    if not (len(hb) == 2 and isinstance(hb[0], ast.If) and ast.unparse(hb[0].test) == 'self.__hash is None' and not hb[0].orelse
+            and isinstance(hb[1], ast.Return) and ast.unparse(hb[1].value) == 'self.__hash'):
+        raise TranslateError('VForm.hash: no longer `if self.__hash is None: <compute>; return self.__hash`')
+    # every other assignment to self.__hash in the class must be the initialisation to None
+    for fn in c.body:
+        if isinstance(fn, ast.FunctionDef) and fn.name != 'hash':
+            for st in ast.walk(fn):
+                if isinstance(st, ast.Assign) and any(_self_attr(t) == '__hash' for t in st.targets):
+                    if not (fn.name == '__init__' and ast.unparse(st.value) == 'None'):
+                        raise TranslateError('VForm.%s assigns self.__hash' % fn.name)
+    # the freeze guard of add(): the first statement must raise when the form may no longer be modified
+    addf = _method(c, 'add')
+    if addf is None:
+        raise TranslateError('VForm.add not found')
+    ab = [st for st in addf.body if not (isinstance(st, ast.Expr) and isinstance(st.value, ast.Constant))]
+    guard = 'GNone'
+    if ab and isinstance(ab[0], ast.If) and len(ab[0].body) == 1 and isinstance(ab[0].body[0], ast.Raise) and not ab[0].orelse:
+        test = ab[0].test
+        alts = test.values if isinstance(test, ast.BoolOp) and isinstance(test.op, ast.Or) else [test]
+        txt = [ast.unparse(a) for a in alts]
+        if any(t not in ('self.__hash is not None', 'self.__is_finalized') for t in txt):
+            raise TranslateError('VForm.add: guard not understood: %s' % ast.unparse(test))
+        guard = 'GHash' if 'self.__hash is not None' in txt else 'GFinal'
+    # exprs must not be appended to anywhere else than in add()
+    for fn in c.body:
+        if isinstance(fn, ast.FunctionDef) and fn.name != 'add':
+            for st in ast.walk(fn):
+                if (isinstance(st, ast.Call) and isinstance(st.func, ast.Attribute) and st.func.attr in ('append', 'extend', 'insert')
+                        and ast.unparse(st.func.value) == 'self.exprs'):
+                    raise TranslateError('VForm.%s appends to self.exprs' % fn.name)
+    out['add_guard'] = guard
     dv = derived['VForm']
     sem = [a for a in ctor if a not in dv]
     recs['VForm'] = {'scalars': scalars, 'segments': segs, 'sem': sem, 'ctor': ctor}
@@ -370,6 +409,7 @@ def to_coq(tr):
     L.append('Definition gen_form_scalars : list string := %s.' % _clist(_cs(a) for a in r['VForm']['scalars']))
     L.append('Definition gen_form_segments : list string := %s.' % _clist(_cs(a) for a in r['VForm']['segments']))
     L.append('Definition gen_form_sem : list string := %s.' % _clist(_cs(a) for a in r['VForm']['sem']))
+    L.append('Definition gen_add_guard : guard := %s.' % tr['add_guard'])
     L.append('')
     obl = [
         ('covers_current', 'covers current_table = true'),
@@ -384,6 +424,7 @@ def to_coq(tr):
         ('pa_sem_keyed', 'subset gen_pa_sem gen_pa_key = true'),
         ('var_sem_keyed', 'subset gen_var_sem gen_var_key = true'),
         ('form_sem_keyed', 'subset gen_form_sem gen_form_scalars = true'),
+        ('add_guard_is_hash', 'gen_add_guard = GHash'),
     ]
     return '\n'.join(L), obl, unknown
 
